@@ -22,6 +22,16 @@ pub struct WReq {
     pub body: Option<Vec<u8>>,
     /// how the Content-Length name is written: 0 canonical, 1 lower, 2 UPPER, 3 mixed
     pub cl_case: u8,
+    /// this many further body bytes (a fixed pattern), written behind `body`: bodies of megabytes without megabytes in the case
+    #[serde(default)]
+    pub pad: u32,
+}
+impl WReq {
+    pub fn full_body(&self) -> Option<Vec<u8>> {
+        let mut b = self.body.clone()?;
+        b.extend((0..self.pad).map(|i| (i.wrapping_mul(2654435761) >> 13) as u8));
+        Some(b)
+    }
 }
 
 pub fn recase(name: &str, mode: u8, salt: u64) -> String {
@@ -42,12 +52,13 @@ impl WReq {
             v.extend_from_slice(val.as_bytes());
             v.extend_from_slice(b"\r\n");
         }
-        if let Some(b) = &self.body {
+        let body = self.full_body();
+        if let Some(b) = &body {
             v.extend_from_slice(recase("Content-Length", self.cl_case, 0x5a5a5a).as_bytes());
             v.extend_from_slice(format!(": {}\r\n", b.len()).as_bytes());
         }
         v.extend_from_slice(b"\r\n");
-        if let Some(b) = &self.body {
+        if let Some(b) = &body {
             v.extend_from_slice(b);
         }
         v
@@ -170,6 +181,6 @@ pub fn wreq() -> impl Strategy<Value = WReq> {
                 Some(q) => format!("{path}?{q}"),
                 None => path,
             };
-            WReq { method, target, headers, body, cl_case }
+            WReq { method, target, headers, body, cl_case, pad: 0 }
         })
 }
